@@ -81,7 +81,7 @@ def run(ctx):
     cs, parts = gen(ctx)
     ctx.log('%d cases' % len(cs))
     outs = H.run_cases(ctx, exe, cs)
-    nruns = sum(len(o['runs']) for o in outs)
+    nruns = sum(o['nruns'] for o in outs)
     ctx.log('driver made %d segmented runs' % nruns)
     prej, irej = H.conformance(ctx, 'Conf_StatusLine', outs, 'statusline')
     ctx.log('TLC evaluated %d cases: P-rejected %d, I-rejected %d' % (len(outs), len(prej), len(irej)))
@@ -113,7 +113,7 @@ def run(ctx):
     ctx.cov['http09_gateway'] = sum(1 for o in outs if o['tuples'][o['one']]['o'] == 'ok' and o['tuples'][o['one']]['consumed'] == 0)
     ctx.cov['ub_reports'] = sum(1 for o in outs if o['ub'])
     for o in (outs[0], outs[len(outs) // 3], outs[-1]):
-        ctx.sample({'input': bytes(o['in'])[:100].decode('latin-1'), 'relaxed': o['relaxed'], 'limit': o['limit'], 'runs': len(o['runs']),
+        ctx.sample({'input': bytes(o['in'])[:100].decode('latin-1'), 'relaxed': o['relaxed'], 'limit': o['limit'], 'runs': o['nruns'],
                     'one_shot': H.tuple_text(o['tuples'][o['one']])})
     ctx.cov['rule'] = ('status-line skeleton (magic, minor, delimiter, status, delimiter, reason, line end, header block) with at most k deviating slots; every token sequence of the MC_StatusLine domain up to 3 (thorough: 4) tokens; '
                        'every status value 000..999; reply_header_max_size lattice; single-byte mutations of valid heads; seeded random mutants: each '
